@@ -9,4 +9,7 @@ func init() {
 	reg.Register("sf-replay", func(a reg.Args) (interface{}, error) {
 		return sf.RunReplay(a.In, a.Out, a.Seed, a.Sample, a.Reps, a.Workers, a.Only, a.Target)
 	})
+	reg.Register("sf-stress", func(a reg.Args) (interface{}, error) {
+		return sf.RunStress(a.Out, a.Seed, a.N, a.Workers)
+	})
 }
